@@ -26,13 +26,13 @@ def eq_canon(root, sort_dicts=True):
 
   def go(x):
     if isinstance(x, bool):
-      return int(x)
-    if not daglish.is_memoizable(x):
+      return ("leaf", "int", repr(int(x)))   # Python ==: False == 0, True == 1
+    if not common.own_memoizable(x):
       return ("leaf", type(x).__name__ if not isinstance(x, (int, bool)) else "int", repr(x))
     if isinstance(x, type) or (callable(x) and hasattr(x, "__qualname__")
                                and not isinstance(x, config_lib.Buildable)):
       return ("sym", l2.sym_name(x))
-    if daglish.is_internable(x):
+    if common.own_internable(x):
       return ("tuple",) + tuple(go(v) for v in x)
     if id(x) in seen:
       return ("ref", seen[id(x)])
@@ -83,13 +83,25 @@ def mutable_nodes(root):
   return [x for x in c02.reachable(root) if isinstance(x, (config_lib.Buildable, list, dict))]
 
 
+REWRITES = ["copy", "explicit_default", "dict_reorder", "history", "leaf", "callable", "type",
+            "alias_create", "alias_break", "alias_redirect", "add_arg", "remove_arg", "tag",
+            "const_tuple_realias"]
+
+
 def rewrite(rng, a):
-  """Returns (b, kind, expected_equal or None) where b is derived from a by one rewrite."""
+  """Returns (b, kind, expected_equal or None) where b is derived from a by one rewrite; kinds that
+  do not apply to this configuration are skipped (up to 5 draws) before falling back to a plain copy."""
+  for _ in range(5):
+    b, kind, expected = rewrite_once(rng, a, rng.choice(REWRITES))
+    if kind != "copy-fallback":
+      return b, kind, expected
+  return b, "copy", True
+
+
+def rewrite_once(rng, a, kind):
   b = copy.deepcopy(a)
   nodes = mutable_nodes(b)
   bl = [x for x in nodes if isinstance(x, config_lib.Buildable)]
-  kind = rng.choice(["copy", "explicit_default", "dict_reorder", "history", "leaf", "callable", "type",
-                     "alias_create", "alias_break", "alias_redirect", "add_arg", "remove_arg", "tag"])
   try:
     if kind == "copy":
       return b, kind, True
@@ -166,6 +178,17 @@ def rewrite(rng, a):
         return new, kind, False
       if replace_everywhere(b, t, new):
         return b, kind, False
+    if kind == "const_tuple_realias":
+      # a tuple of constants (possibly nested) has no identity for Fiddle: replacing one occurrence by
+      # an equal, freshly constructed tuple changes nothing
+      tuples = [x for x in c02.reachable(b) if type(x) is tuple and x and common.own_internable(x)
+                and slots_holding(b, x)]
+      nested = [x for x in tuples if any(type(e) is tuple and e for e in x)]
+      if tuples:
+        t = rng.choice(nested or tuples)
+        x, k = rng.choice(slots_holding(b, t))
+        set_slot(x, k, fresh_tuple(t))
+        return b, kind, True
     if kind in ("alias_create", "alias_break", "alias_redirect"):
       res = alias_rewrite(rng, b, kind)
       if res is not None:
@@ -189,7 +212,7 @@ def rewrite(rng, a):
         return b, kind, None  # equal iff the removed value equalled the default
   except (AttributeError, TypeError, ValueError, IndexError):
     pass
-  return b, "copy", True
+  return copy.deepcopy(a), "copy-fallback", True
 
 
 def slots_holding(root, target):
@@ -202,6 +225,10 @@ def slots_holding(root, target):
     elif isinstance(x, dict):
       out += [(x, k) for k, v in x.items() if v is target]
   return out
+
+
+def fresh_tuple(t):
+  return tuple(fresh_tuple(e) if type(e) is tuple and e else e for e in t)
 
 
 def set_slot(x, k, v):
@@ -263,6 +290,42 @@ def directed_alias_pair(rng):
   A2, B2 = f(), f()
   b = fdl.Config(l2.fd, x=A2, y=B2, z=B2)
   return a, b
+
+
+def complementary_defaults_pair(rng, base):
+  """Two copies of `base` that touch two DIFFERENT defaulted parameters of one node: one side makes the
+  default of p explicit (no change of meaning), the other sets q (a change unless it is q's default)."""
+  xs, ys = copy.deepcopy(base), copy.deepcopy(base)
+  bx = [t for t in c02.reachable(xs) if isinstance(t, config_lib.Buildable)]
+  by = [t for t in c02.reachable(ys) if isinstance(t, config_lib.Buildable)]
+  order = list(range(len(bx)))
+  rng.shuffle(order)
+  for i in order:
+    tx, ty = bx[i], by[i]
+    if tx.__fn_or_cls__ is not ty.__fn_or_cls__:
+      continue
+    dflt = [p for p in l2.sig_params(tx.__fn_or_cls__) if p[2] and p[1] in ("PosOrKw", "KwOnly")
+            and p[0] not in getattr(tx.__fn_or_cls__, "_verif_factory_products", {})]
+    if len(dflt) < 2:
+      continue
+    p, q = rng.sample(dflt, 2)
+    try:
+      for t in (tx, ty):
+        for nm in (p[0], q[0]):
+          if nm in t.__arguments__:
+            delattr(t, nm)
+      setattr(tx, p[0], p[3])                      # explicit default
+      setattr(ty, q[0], rng.choice([4242, q[3]]))  # a real change, or another explicit default
+      for _ in range(rng.randint(0, 2)):           # vary which side has more explicit arguments
+        extra = [r for r in dflt if r[0] not in (p[0], q[0])]
+        if extra:
+          r = rng.choice(extra)
+          for t in (tx, ty):
+            setattr(t, r[0], 77)
+    except (AttributeError, TypeError, ValueError):
+      continue
+    return xs, ys
+  return None
 
 
 def check_pair(res, intern, stream, a, b, kind, expected, label):
@@ -332,7 +395,10 @@ def run(tier: str, seed: int) -> Result:
   res = Result()
   res.rule = ("pairs (a, b): b derived from a deep copy of a random configuration by one labelled rewrite "
               "(copy, default made explicit, dict reordered, different history, leaf / callable / type change, "
-              "alias created / broken / redirected, argument added / removed, tag added), unrelated pairs, and "
+              "alias created / broken / redirected, argument added / removed, tag added, one occurrence of a (nested) "
+              "constant tuple replaced by an equal fresh one), two-sided pairs (both sides "
+              "rewritten 1-2 times from one base), complementary-default pairs (explicit default of p on one side, "
+              "q set on the other), unrelated pairs, and "
               "chains for transitivity; ground truth = canonical forms with defaults filled in; distinct by "
               "hash of the encoded pair")
   intern = common.Interner()
@@ -347,6 +413,12 @@ def run(tier: str, seed: int) -> Result:
       a = fdl.Config(l2.fd, x=a, y=copy.deepcopy(a))
     if not no_int_floats(a):
       continue
+    if rng.random() < 0.15:
+      # plant a nested tuple of constants reachable by several paths
+      t = fresh_tuple(((1, 2), "x", (3, (4,))))
+      a = fdl.Config(l2.fd, x=a, t1=t, t2=[t, fresh_tuple(t)])
+      b0, k0, e0 = rewrite_once(rng, a, "const_tuple_realias")
+      check_pair(res, intern, stream, a, b0, k0, e0, f"planted-tuple#{i}")
     b, kind, expected = rewrite(rng, a)
     r1 = check_pair(res, intern, stream, a, b, kind, expected, f"pair#{i}")
     # transitivity along a chain of equality-preserving rewrites
@@ -359,6 +431,24 @@ def run(tier: str, seed: int) -> Result:
         if safe_eq(a, c) != ("ok", True):
           res.failures.append(Failure(None, f"C06 pair#{i}: a == b and b == c but not a == c",
                                       {"a": repr(a)[:600], "b": repr(b)[:600], "c": repr(c)[:600]}))
+    # two-sided pairs: both sides are rewrites of the same base (e.g. a default made explicit on one side
+    # and another argument added on the other); 1-2 rewrites per side
+    if rng.random() < 0.6:
+      sides, kinds = [], []
+      for _ in range(2):
+        x, ks = a, []
+        for _ in range(rng.randint(1, 2)):
+          x2, k, _ = rewrite(rng, x)
+          if type(x2) is type(a) or isinstance(x2, config_lib.Buildable):
+            x = x2
+            ks.append(k)
+        sides.append(x)
+        kinds.append("+".join(ks))
+      check_pair(res, intern, stream, sides[0], sides[1], "two_sided", None, f"two-sided#{i}[{kinds[0]}|{kinds[1]}]")
+    if rng.random() < 0.3:
+      pair = complementary_defaults_pair(rng, a)
+      if pair is not None:
+        check_pair(res, intern, stream, pair[0], pair[1], "complementary_defaults", None, f"compl-defaults#{i}")
     if prev is not None and rng.random() < 0.2:
       check_pair(res, intern, stream, a, prev, "unrelated", None, f"unrelated#{i}")
     prev = a
